@@ -10,6 +10,7 @@ import Pymodbus.Props.C10
 import Pymodbus.Props.C07
 import Pymodbus.Props.C03
 import Pymodbus.Generated.Tables
+import Pymodbus.Lemmas.ServerChunking
 namespace Pymodbus.Props.C12
 open Pymodbus Pymodbus.Server Pymodbus.Framer
 
@@ -189,5 +190,173 @@ example : (connStep ⟨.rtu, .twistedUdp, false, false⟩ { buf := [] } ⟨Serve
 theorem generated_server_structure :
     Generated.serverStructure = allFrontends.map (fun f =>
       (f.name, addsBroadcastUnit f, f.onErrorSrc, isTwisted f, isTwisted f, true, true)) := by rfl
+
+
+/-! ### the responses do not depend on how the request stream is cut into reads -/
+
+/-- one read on a live connection whose unit list is current, when nothing escapes from the callback: the framer is fed,
+    the deliveries go through the callback, the connection keeps what the framer kept -/
+theorem connStep_ok (cfg : Cfg) (hk : cfg.framer ≠ .tls) (hlo : (isTwisted cfg.frontend && w.ctl.listenOnly) = false)
+    (hud : cfg.frontend ≠ .syncUdp) (conn : Conn) (hr : conn.running = true)
+    (hcur : conn.snap = none ∨ conn.snap = some (acceptedUnits cfg w.units)) (c : Bytes)
+    (hne : (handleEvents cfg w (feed (stepFor cfg.framer) decServer (acceptedUnits cfg w.units) w.units.single
+              conn.buf c).1).2.2 = none) :
+    connStep cfg conn w c =
+      (resnap cfg (handleEvents cfg w (feed (stepFor cfg.framer) decServer (acceptedUnits cfg w.units) w.units.single
+              conn.buf c).1).1
+         { conn with buf := (feed (stepFor cfg.framer) decServer (acceptedUnits cfg w.units) w.units.single conn.buf c).2 },
+       (handleEvents cfg w (feed (stepFor cfg.framer) decServer (acceptedUnits cfg w.units) w.units.single
+              conn.buf c).1).1,
+       (handleEvents cfg w (feed (stepFor cfg.framer) decServer (acceptedUnits cfg w.units) w.units.single
+              conn.buf c).1).2.1, none) := by
+  have hu : conn.snap.getD (acceptedUnits cfg w.units) = acceptedUnits cfg w.units := by
+    rcases hcur with h | h <;> rw [h] <;> rfl
+  unfold connStep
+  simp only [hr, hlo, Bool.not_true, Bool.false_eq_true, if_false, hu, if_neg hk, if_neg hud]
+  generalize handleEvents cfg w (feed (stepFor cfg.framer) decServer (acceptedUnits cfg w.units) w.units.single
+    conn.buf c).1 = h at hne ⊢
+  obtain ⟨w', outs, esc⟩ := h
+  simp only at hne
+  subst hne
+  rfl
+
+/-- the Twisted protocols look at the listen-only switch when data arrives: it must be off at every point of the run
+    (it is switched on only by the diagnostic request Force Listen Only Mode); for the other front-ends this is `True` -/
+def ListenOff (cfg : Cfg) (w : World) (evs : List (Ev Req)) : Prop :=
+  ∀ p, p <+: evs → (isTwisted cfg.frontend && (handleEvents cfg w p).1.ctl.listenOnly) = false
+
+theorem listenOff_of_not_twisted (cfg : Cfg) (w : World) (evs : List (Ev Req)) (h : isTwisted cfg.frontend = false) :
+    ListenOff cfg w evs := by
+  intro p _; simp [h]
+
+/-- a connection served read by read IS the framer fed read by read, followed by the callback on everything it delivered
+    — as long as no exception escapes the callback (and, Twisted, listen-only mode stays off) -/
+theorem serve_as_feedAll (cfg : Cfg) (hk : cfg.framer ≠ .tls)
+    (hud : cfg.frontend ≠ .syncUdp) (chunks : List Bytes) (conn : Conn) (w : World) (hr : conn.running = true)
+    (hcur : conn.snap = none ∨ conn.snap = some (acceptedUnits cfg w.units))
+    (hlo : ListenOff cfg w (feedAll (stepFor cfg.framer) decServer (acceptedUnits cfg w.units) w.units.single
+              conn.buf chunks).1.flatten)
+    (hne : (handleEvents cfg w (feedAll (stepFor cfg.framer) decServer (acceptedUnits cfg w.units) w.units.single
+              conn.buf chunks).1.flatten).2.2 = none) :
+    (serve cfg conn w chunks).2.1 =
+      (handleEvents cfg w (feedAll (stepFor cfg.framer) decServer (acceptedUnits cfg w.units) w.units.single
+              conn.buf chunks).1.flatten).1 ∧
+    (serve cfg conn w chunks).2.2.1.flatten =
+      (handleEvents cfg w (feedAll (stepFor cfg.framer) decServer (acceptedUnits cfg w.units) w.units.single
+              conn.buf chunks).1.flatten).2.1 ∧
+    (serve cfg conn w chunks).1.buf =
+      (feedAll (stepFor cfg.framer) decServer (acceptedUnits cfg w.units) w.units.single conn.buf chunks).2 ∧
+    (serve cfg conn w chunks).1.running = true ∧
+    (∀ e ∈ (serve cfg conn w chunks).2.2.2, e = none) := by
+  induction chunks generalizing conn w with
+  | nil => simp [serve, feedAll, handleEvents, hr]
+  | cons c cs ih =>
+    simp only [feedAll, List.flatten_cons] at hne hlo ⊢
+    have h1 := handleEvents_prefix_ok cfg w _ _ hne
+    have hlo0 : (isTwisted cfg.frontend && w.ctl.listenOnly) = false := by
+      have := hlo [] List.nil_prefix
+      simpa [handleEvents] using this
+    have hstep := connStep_ok cfg hk hlo0 hud conn hr hcur c h1
+    obtain ⟨hacc, hsing⟩ := handleEvents_accepted cfg w
+      (feed (stepFor cfg.framer) decServer (acceptedUnits cfg w.units) w.units.single conn.buf c).1
+    have hlo1 : ∀ p, p <+: (feedAll (stepFor cfg.framer) decServer (acceptedUnits cfg w.units) w.units.single
+          (feed (stepFor cfg.framer) decServer (acceptedUnits cfg w.units) w.units.single conn.buf c).2 cs).1.flatten →
+        (isTwisted cfg.frontend && (handleEvents cfg (handleEvents cfg w (feed (stepFor cfg.framer) decServer
+          (acceptedUnits cfg w.units) w.units.single conn.buf c).1).1 p).1.ctl.listenOnly) = false := by
+      intro p hp
+      have := hlo ((feed (stepFor cfg.framer) decServer (acceptedUnits cfg w.units) w.units.single conn.buf c).1 ++ p)
+        ((List.prefix_append_right_inj _).2 hp)
+      rw [handleEvents_append cfg w _ _ h1] at this
+      exact this
+    rw [handleEvents_append cfg w _ _ h1] at hne ⊢
+    simp only at hne
+    generalize feed (stepFor cfg.framer) decServer (acceptedUnits cfg w.units) w.units.single conn.buf c = fe
+      at hne hstep hacc hsing h1 hlo1 ⊢
+    generalize hw1 : (handleEvents cfg w fe.1).1 = w1 at hne hstep hacc hsing hlo1 ⊢
+    have hcur' : (resnap cfg w1 { conn with buf := fe.2 }).snap = none ∨
+        (resnap cfg w1 { conn with buf := fe.2 }).snap = some (acceptedUnits cfg w1.units) := by
+      simp only [resnap]; split <;> simp
+    have hr' : (resnap cfg w1 { conn with buf := fe.2 }).running = true := by simp [resnap, hr]
+    have hb' : (resnap cfg w1 { conn with buf := fe.2 }).buf = fe.2 := rfl
+    have := ih (resnap cfg w1 { conn with buf := fe.2 }) w1 hr' hcur'
+      (by rw [hb', hacc, hsing]; exact hlo1) (by rw [hb', hacc, hsing]; exact hne)
+    rw [hb', hacc, hsing] at this
+    obtain ⟨a1, a2, a3, a4, a5⟩ := this
+    simp only [serve, hstep, List.flatten_cons]
+    refine ⟨a1, by rw [a2], a3, a4, ?_⟩
+    intro e he
+    simp only [List.mem_cons] at he
+    rcases he with he | he
+    · exact he
+    · exact a5 e he
+
+/-- **Responses are independent of TCP segmentation / serial read boundaries.**  A stream of valid request frames
+    (any request classes, any ids, any number), cut into reads ANYWHERE, makes a stream front-end write exactly the
+    bytes — and leaves exactly the datastore and control block — that handing all the requests to the callback one
+    after the other yields; nothing stays buffered, the connection stays open, no exception escapes.  (Composition of
+    C06 `chunking_independent` with the front-end model; hypotheses: no `buildPacket` failure in the run; Twisted:
+    listen-only mode is not switched on in the run.) -/
+theorem serve_chunking_independent (cfg : Cfg) (F : C06.Framing) (hF : framingOf cfg.framer = some F)
+    (hud : cfg.frontend ≠ .syncUdp) (w : World)
+    (fs : List (VFrame Req)) (hfs : ∀ f ∈ fs, C06.IsBuilt F decServer (acceptedUnits cfg w.units) w.units.single f)
+    (chunks : List Bytes) (hc : chunks.flatten = stream fs)
+    (hlo : ListenOff cfg w (fs.map (fun f => Ev.deliver f.msg f.uid f.tid f.pid)))
+    (hne : (handleEvents cfg w (fs.map (fun f => Ev.deliver f.msg f.uid f.tid f.pid))).2.2 = none) :
+    (serve cfg (openConn cfg w) w chunks).2.1 =
+      (handleEvents cfg w (fs.map (fun f => Ev.deliver f.msg f.uid f.tid f.pid))).1 ∧
+    (serve cfg (openConn cfg w) w chunks).2.2.1.flatten =
+      (handleEvents cfg w (fs.map (fun f => Ev.deliver f.msg f.uid f.tid f.pid))).2.1 ∧
+    (serve cfg (openConn cfg w) w chunks).1.buf = [] ∧
+    (serve cfg (openConn cfg w) w chunks).1.running = true ∧
+    (∀ e ∈ (serve cfg (openConn cfg w) w chunks).2.2.2, e = none) := by
+  have hstep : stepFor cfg.framer = C06.stepOf F ∧ cfg.framer ≠ .tls := by
+    cases hk : cfg.framer <;> rw [hk] at hF <;> simp only [framingOf, Option.some.injEq, reduceCtorEq] at hF
+    all_goals subst hF
+    all_goals exact ⟨by funext buf; rfl, by simp⟩
+  obtain ⟨hev, hbuf⟩ := C06.chunking_independent F decServer (acceptedUnits cfg w.units) w.units.single fs hfs chunks hc
+  have hcur : (openConn cfg w).snap = none ∨ (openConn cfg w).snap = some (acceptedUnits cfg w.units) := by
+    simp only [openConn, resnap]; split <;> simp
+  have hb0 : (openConn cfg w).buf = [] := rfl
+  have := serve_as_feedAll cfg hstep.2 hud chunks (openConn cfg w) w rfl hcur
+    (by rw [hb0, hstep.1, hev]; exact hlo) (by rw [hb0, hstep.1, hev]; exact hne)
+  rw [hb0, hstep.1, hev, hbuf] at this
+  exact this
+
+/-- … in particular any two ways of cutting the same request stream give the same bytes on the wire and the same
+    final state -/
+theorem serve_any_two_chunkings (cfg : Cfg) (F : C06.Framing) (hF : framingOf cfg.framer = some F)
+    (hud : cfg.frontend ≠ .syncUdp) (w : World)
+    (fs : List (VFrame Req)) (hfs : ∀ f ∈ fs, C06.IsBuilt F decServer (acceptedUnits cfg w.units) w.units.single f)
+    (c1 c2 : List Bytes) (h1 : c1.flatten = stream fs) (h2 : c2.flatten = stream fs)
+    (hlo : ListenOff cfg w (fs.map (fun f => Ev.deliver f.msg f.uid f.tid f.pid)))
+    (hne : (handleEvents cfg w (fs.map (fun f => Ev.deliver f.msg f.uid f.tid f.pid))).2.2 = none) :
+    (serve cfg (openConn cfg w) w c1).2.2.1.flatten = (serve cfg (openConn cfg w) w c2).2.2.1.flatten ∧
+    (serve cfg (openConn cfg w) w c1).2.1 = (serve cfg (openConn cfg w) w c2).2.1 := by
+  obtain ⟨a1, a2, _⟩ := serve_chunking_independent cfg F hF hud w fs hfs c1 h1 hlo hne
+  obtain ⟨b1, b2, _⟩ := serve_chunking_independent cfg F hF hud w fs hfs c2 h2 hlo hne
+  exact ⟨by rw [a2, b2], by rw [a1, b1]⟩
+
+/-- the Twisted hypothesis is needed: with Force Listen Only Mode (FC 8 / sub 4) in the stream, the request behind it is
+    served when both arrive in one read and dropped when they arrive in two (the protocol looks at the switch when data
+    arrives) -/
+theorem twisted_listen_only_depends_on_chunking :
+    (serve ⟨.tcp, .twistedTcp, false, false⟩ (openConn ⟨.tcp, .twistedTcp, false, false⟩ ⟨ServerCtx.mkSingle ⟨[.seq ⟨0, [7]⟩], 0, 0, 0, 0, true⟩, ctl0⟩)
+      ⟨ServerCtx.mkSingle ⟨[.seq ⟨0, [7]⟩], 0, 0, 0, 0, true⟩, ctl0⟩
+      [[0, 1, 0, 0, 0, 6, 1, 8, 0, 4, 0, 0, 0, 2, 0, 0, 0, 6, 1, 3, 0, 0, 0, 1]]).2.2.1.flatten ≠
+    (serve ⟨.tcp, .twistedTcp, false, false⟩ (openConn ⟨.tcp, .twistedTcp, false, false⟩ ⟨ServerCtx.mkSingle ⟨[.seq ⟨0, [7]⟩], 0, 0, 0, 0, true⟩, ctl0⟩)
+      ⟨ServerCtx.mkSingle ⟨[.seq ⟨0, [7]⟩], 0, 0, 0, 0, true⟩, ctl0⟩
+      [[0, 1, 0, 0, 0, 6, 1, 8, 0, 4, 0, 0], [0, 2, 0, 0, 0, 6, 1, 3, 0, 0, 0, 1]]).2.2.1.flatten := by decide
+
+-- Non-vacuity of `serve_chunking_independent`: a write followed by a read of the same register, on one TCP connection;
+-- the hypothesis (nothing escapes the callback) holds, and the stream cut in the middle of the second request and byte by
+-- byte gives the bytes of the two responses
+example : (handleEvents ⟨.tcp, .syncTcp, false, false⟩ ⟨ServerCtx.mkSingle ⟨[.seq ⟨0, [7]⟩], 0, 0, 0, 0, true⟩, ctl0⟩
+    [.deliver (.writeRegister 0 9) 1 1 0, .deliver (.readHolding 0 1) 1 2 0]).2.2 = none := by rfl
+
+example : ((serve ⟨.tcp, .syncTcp, false, false⟩ (openConn ⟨.tcp, .syncTcp, false, false⟩
+      ⟨ServerCtx.mkSingle ⟨[.seq ⟨0, [7]⟩], 0, 0, 0, 0, true⟩, ctl0⟩)
+      ⟨ServerCtx.mkSingle ⟨[.seq ⟨0, [7]⟩], 0, 0, 0, 0, true⟩, ctl0⟩
+      [[0, 1, 0, 0, 0, 6, 1, 6, 0, 0, 0, 9, 0, 2, 0], [0], [0, 6, 1, 3, 0], [0, 0, 1]]).2.2.1.flatten =
+    [[0, 1, 0, 0, 0, 6, 1, 6, 0, 0, 0, 9], [0, 2, 0, 0, 0, 5, 1, 3, 2, 0, 9]]) := by rfl
 
 end Pymodbus.Props.C12
